@@ -38,6 +38,10 @@ def families(tier):
         {'name': 'A3', 'params': {'hist': 'BMX', 'kinds': ['is_dir'], 'roles': ['o'], 'targets': ['o/d/g'], 'modes': ['ok'], 'mut_paths': mp}, 'weight': 3},
         {'name': 'A5b', 'params': {'hist': 'BMX', 'modes': ['ok'], 'mut_paths': ['o/d', 'o/d/g', 'o/f'], 'catch': True}, 'weight': 3},
         {'name': 'A5a', 'params': {'hist': 'BX', 'modes': ['ok', 'raise_after'], 'catch': True}, 'weight': 2},
+        # nested outputs whose old versions were tampered with: the inner call moves its old output aside (rename) in a directory
+        # the outer call already holds
+        {'name': 'A5a', 'params': {'hist': 'BMX', 'modes': ['ok'], 'catch': True, 'mut_paths': ['o/x', 'o/f', 'o/d/g'],
+                                   'mut_kinds': ['write']}, 'weight': 2},
         {'name': 'A4', 'params': {'hist': 'BMX', 'kinds': ['is_dir', 'list_dir'], 'roles': ['o'], 'targets': ['o/d/g'], 'modes': ['ok'],
                                   'mut_paths': ['o/d', 'o/d/g']}, 'weight': 2},
         {'name': 'A8', 'params': {'hist': 'BX', 'kinds': ['is_dir']}, 'weight': 2},
